@@ -15,12 +15,32 @@ def gen_walk(wd):
     if not m:
         raise RuntimeError("anchor for the segment walk loop headers not found")
     loops = m.group(0)
+    # tail of the outer loop body: everything between the end of the inner loop's body and the end of
+    # the outer loop's body (brace matching; comments and literals of this region contain no braces)
+    def match(pos):
+        depth = 1
+        while depth:
+            c = src[pos]
+            if c == "{":
+                depth += 1
+            elif c == "}":
+                depth -= 1
+            pos += 1
+        return pos
+    inner_open = j + m.end()                  # just after the inner loop's '{'
+    inner_close = match(inner_open)           # just after the inner loop's '}'
+    outer_open = j + m.start() + src[j + m.start():].index("{") + 1
+    outer_close = match(outer_open)
+    tail = src[inner_close:outer_close - 1]
+    if "{" in tail and tail.count("{") != tail.count("}"):
+        raise RuntimeError("unbalanced tail of the segment walk loop")
     with open(os.path.join(wd, "c24_walk.inc"), "w") as f:
-        f.write("/* generated from EbEncDecProcess.c (mode_decision_kernel) */\n"
+        f.write("/* generated from EbEncDecProcess.c (mode_decision_kernel): loop set-up, both loop headers and the\n"
+                "   tail of the outer loop body are the repository's text; the per-superblock body is replaced by visit_sb() */\n"
                 "static void walk_segment(EncDecSegments *segments_ptr, uint16_t segment_index, uint32_t tile_group_width_in_sb) {\n"
                 "    uint32_t x_sb_start_index, y_sb_start_index, sb_start_index, sb_segment_count, segment_row_index, segment_band_index, segment_band_size;\n"
                 "    uint32_t x_sb_index, y_sb_index, sb_segment_index;\n")
-        f.write("    " + setup + "\n    " + loops + "\n        visit_sb(x_sb_index, y_sb_index);\n    }}\n}\n")
+        f.write("    " + setup + "\n    " + loops + "\n        visit_sb(x_sb_index, y_sb_index);\n    }\n" + tail + "\n}\n}\n")
 
 S1 = "Source/Lib/Encoder/Codec/EbEncDecSegments.c:"
 P1 = "Source/Lib/Encoder/Codec/EbEncDecProcess.c:"
@@ -36,13 +56,15 @@ META = {
 def R(w, h, sc, sr, steps, maxseg=4, to=900):
     return Query(name="run_%dx%d_grid%dx%d" % (w, h, sc, sr), harness="C24/segs.c",
                  defines=["MODE=1", "PW=%d" % w, "PH=%d" % h, "SC=%d" % sc, "SR=%d" % sr, "MAXSEG=%d" % maxseg, "NSTEPS=%d" % steps],
-                 gen=gen_walk, unwind=max(w * h, 2 * maxseg * maxseg, steps) + 2, funcs=F, timeout=to,
+                 gen=gen_walk, unwind=max(w * h, 2 * maxseg * maxseg, steps) + 2, unwindset=["walk_segment.0:%d" % (h + 1), "walk_segment.1:%d" % (w + 1)],
+                 funcs=F, timeout=to, mem_gb=24,
                  bound="picture %dx%d superblocks, requested segment grid %dx%d (cols x rows), 3 workers, %d symbolic scheduler steps" % (w, h, sc, sr, steps),
                  what="each superblock once, dependency order, completion, lock discipline under every worker schedule")
 def G(w, h, sc, sr, maxseg=8, to=900):
     return Query(name="geom_%dx%d_grid%dx%d" % (w, h, sc, sr), harness="C24/segs.c",
                  defines=["MODE=2", "PW=%d" % w, "PH=%d" % h, "SC=%d" % sc, "SR=%d" % sr, "MAXSEG=%d" % maxseg],
-                 gen=gen_walk, unwind=max(w * h, 2 * maxseg * maxseg) + 2, funcs=F[:2] + F[3:], timeout=to,
+                 gen=gen_walk, unwind=max(w * h, 2 * maxseg * maxseg) + 2, unwindset=["walk_segment.0:%d" % (h + 1), "walk_segment.1:%d" % (w + 1)],
+                 funcs=F[:2] + F[3:], timeout=to, mem_gb=24,
                  bound="picture %dx%d superblocks, requested grid %dx%d" % (w, h, sc, sr),
                  what="segments partition the picture; row bounds bracket the row's segments; each segment's walk visits exactly its members")
 def queries(tier):
